@@ -857,8 +857,21 @@ func (c *FnCtx) assignedVars(n ast.Node, loop ast.Node) []*types.Var {
 				}
 				return
 			case *ast.SelectorExpr:
+				// x.f = v modifies the variable x only when x is a struct value; through a
+				// pointer it modifies the heap
+				if t := c.info().TypeOf(y.X); t != nil {
+					if _, isPtr := t.Underlying().(*types.Pointer); isPtr {
+						return
+					}
+				}
 				e = y.X
 			case *ast.IndexExpr:
+				if t := c.info().TypeOf(y.X); t != nil {
+					switch t.Underlying().(type) {
+					case *types.Slice, *types.Map, *types.Pointer:
+						return
+					}
+				}
 				e = y.X
 			default:
 				return
@@ -903,7 +916,7 @@ func (c *FnCtx) havocMods(st *State, hm map[string]types.Type) {
 	if len(hm) > 0 {
 		na := c.fresh("alloc")
 		c.declConst(na, "Int")
-		c.facts = append(c.facts, app(">=", na, st.alloc))
+		c.facts = append(c.facts, app(">=", na, st.alloc), app("<", na, "281474976710656"))
 		st.alloc = na
 	}
 }
